@@ -250,12 +250,12 @@ func TestC10(t *testing.T) {
 	// (3) rapid
 	p = c.rec.NewPart("rapid_fragments", "rapid: fragment-grammar input x drawn mask (lower / upper / alternating / per-letter)", true, false, "")
 	g := gen.SQLInput()
-	c.Rapid(p, 8, pick(25000, 700000), func(rt *rapid.T, sh int) ev.Case {
+	c.Rapid(p, 8, pick(100000, 900000), func(rt *rapid.T, sh int) ev.Case {
 		s := g.Draw(rt, "s")
 		return pair(s, drawMask(rt, s, sqliExempt(s)))
 	})
 	p = c.rec.NewPart("rapid_attacks_and_corpus", "rapid: attack grammar member or mutated fixture x per-letter mask", true, false, "")
-	c.Rapid(p, 8, pick(15000, 500000), func(rt *rapid.T, sh int) ev.Case {
+	c.Rapid(p, 8, pick(60000, 700000), func(rt *rapid.T, sh int) ev.Case {
 		var s string
 		switch rapid.IntRange(0, 2).Draw(rt, "src") {
 		case 0:
